@@ -50,8 +50,13 @@ def st_case(draw):
         src["curve"]["n_pause"] = draw(st.integers(20, 60))
         cfg["segment"] = draw(st.sampled_from([0, 1, 2, 2]))
     prior = draw(st.sampled_from([None, None, "nm", "nm", "sample"]))
-    return {"src": src, "cfg": cfg, "prior": prior, "prior_shift": draw(st.floats(0.5e-9, 9e-9)),
+    case = {"src": src, "cfg": cfg, "prior": prior, "prior_shift": draw(st.floats(0.5e-9, 9e-9)),
             "prior_sign": draw(st.sampled_from([1, -1]))}
+    if cfg["range_type"] == "relative cp" and cfg["gcf_k"] == 1.0 and not cfg["optimal_fit_edelta"]:
+        # the contact point tied by an expression to a varied parameter (the baseline): it is not "varied" itself,
+        # yet its fitted value differs from its initial value, and the interval is anchored at the fitted one
+        case["cp_expr"] = draw(st.sampled_from([None, None, 0.02, 0.1, -0.05]))
+    return case
 
 
 def expected_mask(x, seg, lo, hi):
@@ -89,6 +94,14 @@ def check_case(case, ctx):
             with fitgen.catch():
                 idnt.fit_model(**kw0)
             classes.append("prior_" + case["prior"])
+    if case.get("cp_expr") and mode == "relative cp" and k == 1:
+        pi = fitgen.build_source(src).get_initial_fit_parameters(model_key=cfg["model_key"])
+        frange = float(np.ptp(idnt["force"])) or 1.0
+        cp0, bl0 = float(pi["contact_point"].value), float(pi["baseline"].value)
+        slope = case["cp_expr"] * float(np.ptp(x)) / frange
+        pi["contact_point"].set(expr="%r + %r * (baseline - %r)" % (cp0, slope, bl0))
+        kw["params_initial"] = pi
+        classes.append("cp_tied_by_expression")
     with fitgen.MinimizeRecorder() as rec, fitgen.catch() as box:
         idnt.fit_model(**kw)
     if box["exc"] is not None:
